@@ -569,6 +569,15 @@ def observe(kind, obj, out):
     return None
 
 
+def _budget_only_difference(a, b):
+    """two observations differ only where at least one of them is the "budget" marker"""
+    if a == "budget" or b == "budget":
+        return True
+    if isinstance(a, tuple) and isinstance(b, tuple) and len(a) == len(b):
+        return all(x == y or x == "budget" or y == "budget" for x, y in zip(a, b))
+    return False
+
+
 def semantic(kind, obj, out):
     """history-independent meaning of an object (for I2 on conversion results)"""
     if kind == "fa":
@@ -876,7 +885,11 @@ def run(case, out):
                 of = observe(e.kind, fresh(on), out) if ol is not None else None
             except Exception:
                 ol = of = None
-            if ol != of:
+            if ol != of and _budget_only_difference(ol, of):
+                # one side ran out of its line budget (a product grammar's emptiness can be slow on either side):
+                # termination is not what C19 states, so this is inconclusive, not a verdict
+                out.probe("edited_object_observation_budget_exhausted_inconclusive")
+            elif ol != of:
                 out.fail("I2:edited-object-answers-differ-from-fresh-replica", step=step, kind=e.kind, mutator=what,
                          live=str(ol)[:150], fresh=str(of)[:150])
                 return
